@@ -535,6 +535,23 @@ func init() {
 		p.state["uuid"] = n
 		return fmt.Sprintf("00000000-0000-4000-8000-%012d", n)
 	}, "github.com/google/uuid.NewString")
+	reg(func(p *Path, fr *frame, fn *ssa.Function, args []Value) Value {
+		n, _ := p.state["uuid"].(int)
+		n++
+		p.state["uuid"] = n
+		a := make(Array, 16)
+		for i := range a {
+			a[i] = sym.Byte(0)
+		}
+		a[6], a[8] = sym.Byte(0x40), sym.Byte(0x80)
+		a[14], a[15] = sym.Byte(byte(n>>8)), sym.Byte(byte(n))
+		return a
+	}, "github.com/google/uuid.New")
+	reg(func(p *Path, fr *frame, fn *ssa.Function, args []Value) Value {
+		a := args[0].(Array)
+		n := int(a[14].(*sym.Term).C)<<8 | int(a[15].(*sym.Term).C)
+		return fmt.Sprintf("00000000-0000-4000-8000-%012d", n)
+	}, "(github.com/google/uuid.UUID).String")
 	reg(nop, "os.runtime_beforeExit")
 	reg(func(p *Path, fr *frame, fn *ssa.Function, args []Value) Value { return Slice{} }, "syscall.runtime_envs")
 }
